@@ -1,3 +1,30 @@
+@@ RaftIndexInnerManager::write_last_applied_log crashpoints write_all set_len
+@@ RaftIndexInnerManager::write_last_applied_log crash_inv
+    // C04: crash point $N — the file holds the catalogue / vote / membership it held, with the old or the new last-applied index
+    proof {   // @C04
+        let vx_c1 = self.file.contents();   // @C04
+        if old(self).wf() {   // @C04
+            let vx_m0 = choose|m: RaftIndex| #[trigger] holds(c0, old(self).last_applied_log, m) && dto_of(m) == old(self).raft_index;   // @C04
+            assert(vx_c1.take(8) =~= be64(last_applied_log));   // @C04
+            assert(vx_c1.subrange(8, 8 + pb_frame(vx_m0).len() as int) =~= c0.subrange(8, 8 + pb_frame(vx_m0).len() as int));   // @C04
+            assert(holds(vx_c1, last_applied_log, vx_m0));   // @C04
+        }   // @C04
+    }   // @C04
+    assert(old(self).wf() ==> (holds_dto(self.file.contents(), old(self).last_applied_log, old(self).raft_index)   // @C04
+        || holds_dto(self.file.contents(), last_applied_log, old(self).raft_index)));   // @C04
+@@ RaftIndexInnerManager::write_index crashpoints write_all set_len
+@@ RaftIndexInnerManager::write_index crash_inv
+    // C04: crash point $N — the file holds the last-applied index it held, with the old or the new catalogue / vote / membership
+    // (one write call carries length prefix and record together: there is no instant at which a new prefix stands before an old body)
+    proof {   // @C04
+        let vx_c1 = self.file.contents();   // @C04
+        if old(self).wf() {   // @C04
+            assert(vx_c1.take(8) =~= c0.take(8));   // @C04
+            assert(holds(vx_c1, old(self).last_applied_log, msg_of(index)));   // @C04
+        }   // @C04
+    }   // @C04
+    assert(old(self).wf() ==> (holds_dto(self.file.contents(), old(self).last_applied_log, old(self).raft_index)   // @C04
+        || holds_dto(self.file.contents(), old(self).last_applied_log, index)));   // @C04
 @@ RaftIndexInnerManager::write_last_applied_log spec
     requires old(self).file.contents().len() >= 8
     // C05: acknowledged (Ok) => the header holds the new last-applied index and everything behind the header is untouched,
